@@ -115,6 +115,17 @@ std::string runCase(const vio::Case &c) {
   // ---------------------------------------------------------------- compile
   std::string errtype, err;
   bool located = false;
+  // C11: unrelated compilations earlier in the same process (fields pre0, pre1, ...)
+  for (int k = 0; k < 64; k++) {
+    std::string key = "pre" + std::to_string(k);
+    if (!c.has(key.c_str())) break;
+    std::ostringstream sink;
+    try {
+      xcmp::Driver d0(sink);
+      d0.run(xcmp::DriverAction::EMIT_BINARY, c.str(key.c_str()), false, "x_pre.bin");
+    } catch (...) {}
+    unlink("x_pre.bin");
+  }
   {
     std::ostringstream sink;
     try {
